@@ -129,6 +129,10 @@ impl Link {
         self.ops.len()
     }
 
+    pub fn is_symbol_address(&self, addr: Address) -> bool {
+        self.symbols.values().any(|(op_addr, _)| *op_addr == addr)
+    }
+
     pub fn clear(&mut self) {
         self.current_symbol = 0;
         self.direct_set = false;
